@@ -3,7 +3,7 @@
    base64 fields are produced by b64_encode (encoding/base64, standard alphabet, padding).
    JSON object syntax and number formatting are encoding/json's (trusted, parsed back by the
    driver).  `pf` is strconv.ParseFloat. *)
-From RS Require Import Base.Bytes Model.Rdb Model.Cupcake Model.Decode Proofs.DecodeProofs.
+From RS Require Import Base.Bytes Model.Rdb Model.Cupcake Model.Decode Model.PoolProto Proofs.DecodeProofs Proofs.PoolProofs.
 From Coq Require Import Permutation.
 Open Scope N_scope.
 
@@ -32,6 +32,28 @@ Theorem C17_every_schedule : forall pf n sched es, length sched = length es -> F
   Permutation (all_blocks pf n sched es) (map (block pf) es).
 Proof. exact blocks_exactly_once. Qed.
 
+(* ---- the completion protocol of decode (Model/PoolProto, `dstep`: parser goroutine, bounded
+   input channel, n decoder workers each holding at most one block, bounded output channel closed
+   by the collector when every worker has left, one writer goroutine, caller) ----
+   Under EVERY schedule of those goroutines: the caller returns only when every block of the
+   file's records has been written to the output, each exactly once, and nothing is left in a
+   channel or in a worker's hands. *)
+Theorem C17_returns_only_when_written : forall (A : Type) cap ocap (file : list A) n es (s : dst A),
+  (0 < n)%nat -> drun cap ocap (dinit file n) es = Some s -> d_ret s = true ->
+  Permutation (d_written s) file /\ d_out s = [] /\ d_chan s = [] /\ d_unpushed s = [] /\ held (d_ws s) = [].
+Proof. exact (@decode_returns_only_when_written). Qed.
+
+Theorem C17_no_deadlock : forall (A : Type) cap ocap (file : list A) n es (s : dst A),
+  (0 < cap)%nat -> (0 < ocap)%nat -> drun cap ocap (dinit file n) es = Some s -> d_ret s = false ->
+  exists e, dstep cap ocap s e <> None.
+Proof. exact (@decode_no_deadlock). Qed.
+
+Example C17_protocol_nonvacuous :
+  (exists s, drun 1 1 (dinit [7; 8]%nat 2) [DPush; DTake 1; DPush; DClose; DTake 0; DEmit 0; DExit 0; DWrite; DEmit 1; DExit 1; DCloseOut; DWrite; DWriterDone; DReturn] = Some s
+             /\ d_ret s = true /\ d_written s = [8; 7]%nat) /\
+  drun 1 1 (dinit [7; 8]%nat 2) [DPush; DTake 1; DReturn] = None.
+Proof. split; [eexists; vm_compute; repeat split|reflexivity]. Qed.
+
 Example C17_nonvacuous : b64_encode [x00; xff; x10; x80] = [x41; x50; x38; x51; x67; x41; x3d; x3d] (* "AP8QgA==" *)
   /\ b64_decode [x41; x50; x38; x51; x67; x41; x3d; x3d] = Some [x00; xff; x10; x80].
 Proof. split; vm_compute; reflexivity. Qed.
@@ -39,3 +61,5 @@ Proof. split; vm_compute; reflexivity. Qed.
 Print Assumptions C17_base64_roundtrip.
 Print Assumptions C17_lines_recover_value.
 Print Assumptions C17_every_schedule.
+Print Assumptions C17_returns_only_when_written.
+Print Assumptions C17_no_deadlock.
